@@ -10,8 +10,8 @@ structure St where
   t : TextSt := {}
   implPrev : Array UInt8 := #[]
 
-def bytesOfCanvas (c : Canvas) : List UInt8 := c.bytes.map (fun b => UInt8.ofNat b.toNat)
-def canvasBytesOf (a : Array UInt8) : List (BitVec 8) := a.toList.map (fun b => BitVec.ofNat 8 b.toNat)
+def bytesOfCanvas (c : Canvas) : List UInt8 := c.bytes.toList.map (fun b => UInt8.ofNat b.toNat)
+def canvasBytesOf (a : Array UInt8) : Array (BitVec 8) := a.map (fun b => BitVec.ofNat 8 b.toNat)
 
 def specG (c : Canvas) : Spec.Mono.G :=
   { W := c.geo.W, H := c.geo.H, wib := c.geo.wib, bx := c.geo.bx, byy := c.geo.byy,
